@@ -47,7 +47,11 @@ RULE = (
     "source; outputs -w stream / jsonfile and subprocess json / jsonlines / stream / -l.  Heterogeneous streams (family H): one field NAME "
     "typed varint / string / float in different record types, and/or/not selectors over it, each argv run with the compiled and the "
     "interpreted engine; reference = Python's own short-circuit evaluation, a record on which the expression raises ends its source.  "
-    "Environment children: rdump subprocesses with FLOW_RECORD_IGNORE (reserved / data fields), FLOW_RECORD_TZ, PYTHONHASHSEED, "
+    "Deep nesting (family N): records holding records two and three levels down (record -> record -> record, record[] inside record[], a grouped "
+    "record whose member holds a record[] of records) where the deciding value sits at the deepest level only, with Type.<t> ==, in / contains, "
+    ">= selectors under both engines; reference = the shared evaluator walking all depths.  Case boundaries (family U): text values and selector literals from a list of non-ASCII case-boundary strings (sharp s, final sigma, long s, "
+    "ligatures, dotted / dotless i, titlecase digraphs, KELVIN SIGN ...) with lower / upper / field_equals / field_contains / field_regex (?i) "
+    "selectors under both engines; reference = the shared reference evaluator (str.lower() / str.upper()).  Environment children: rdump subprocesses with FLOW_RECORD_IGNORE (reserved / data fields), FLOW_RECORD_TZ, PYTHONHASHSEED, "
     "PYTHONOPTIMIZE, PYTHONIOENCODING, LC_ALL=C: every output mode must be what the reference pipeline says (FLOW_RECORD_TZ: "
     "record-level outputs only, it changes the rendered text of timestamps).  Neutral-name and concatenated sources are also placed at every position among 1-3 (1-4) good sources and "
     "next to bad ones: they contribute all records of all parts in order and nothing else (a mid-stream header frame is not a record).  Seeded part: random placements x options --skip 0..N+1, "
@@ -63,7 +67,7 @@ RULE = (
     "options, sub-seed)."
 )
 ASSUMPTIONS = [
-    "-c 0 (means 'no limit' today), -E and --format are not generated; grouped records are not part of the generated inputs",
+    "-c 0 (means 'no limit' today), -E and --format are not generated; grouped records appear only in the deep-nesting family (stream output, selector / skip / count only)",
     "a name repeated in -F is not generated (the rewriter then builds a descriptor that lists the field twice, which is outside the descriptor grammar)",
     "truncated sources are plain streams cut at a random byte; compressed sources are whole, empty, garbage or damaged by inverted bytes - for the "
     "latter any prefix of the decodable records is accepted (the exact compressed-prefix semantics is C04's subject); a damage whose decompressed bytes "
@@ -72,6 +76,8 @@ ASSUMPTIONS = [
     "a plain stream whose LAST frame carries a too-long length prefix (all its bytes present) is not generated: whether that frame counts as complete is C04's subject",
     "inputs avoid the value classes owned by C01 known findings (IPv6 below 2**32, scoped addresses, dynamic holding a path); a case whose "
     "source bytes do not decode (independent codec) to the records written is skipped and counted",
+    "generated selectors keep loop variables pairwise distinct (re-use of a loop variable name is in the may-reject class of the selector language: the "
+    "interpreted engine refuses some re-uses that Python accepts - C07's subject)",
     "a selector that is undefined on some record (reference evaluator, all sub-expressions eager) makes the case undefined: skipped and counted; "
     "selectors that reach a missing field through 'not in', '!=', 'is', 'is not' or 'in <non list/tuple>' are skipped (C08's subject: known findings of the engines / identity tests)",
     "jsonfile output is compared only for family B (JSON-representable types; every NaN equal); plain JSON modes are compared on keys and scalar values",
@@ -83,7 +89,7 @@ ASSUMPTIONS = [
     "a selector raising on a record ends that source in both engines (observed behaviour of the reader loop, modelled as such)",
 ]
 SHARDS = {"quick": 8, "thorough": 16}
-BUDGET_S = {"quick": 200, "thorough": 1200}
+BUDGET_S = {"quick": 200, "thorough": 3600}
 
 ANCHORS = [
     "flow.record.tools.rdump:main",
@@ -176,9 +182,9 @@ def damage_placements(maxn):
         out.append(([a, "dmg-gz", "good"], 1))
     # sources whose name does not reveal their codec / concatenated streams, at every position among good ones
     for n in range(1, maxn + 1):
-        for k in ("neutral", "concat"):
+        for k in ("neutral", "concat", "scheme"):
             for pos in range(n):
-                for rep in range(4):
+                for rep in range(4 if k != "scheme" else 1):
                     out.append((["good"] * pos + [k] + ["good"] * (n - pos - 1), rep))
     for bad in ("missing", "garbage", "trunc", "dmg-gz"):
         for k in ("neutral", "concat"):
@@ -197,19 +203,27 @@ def generate(ctx):
         if ctx.mine(idx):
             yield {"k": "place", "pattern": pat, "fam": "AB"[idx % 2], "s": subseed("c16", "dmgplace", idx, rep)}
         idx += 1
-    for i in range(ctx.scale(3, 20)):
+    for i in range(ctx.scale(3, 40)):
         yield {"k": "mtx", "fam": "C", "s": subseed("c16", ctx.seed, "mtx", ctx.shard, i)}
-    for i in range(ctx.scale(6, 40)):
+    for i in range(ctx.scale(6, 160)):
         yield {"k": "fmt", "fam": "C", "s": subseed("c16", ctx.seed, "fmt", ctx.shard, i)}
-    for i in range(ctx.scale(12, 80)):
+    for i in range(ctx.scale(12, 400)):
         yield {"k": "hetero", "fam": "H", "s": subseed("c16", ctx.seed, "hetero", ctx.shard, i)}
+    for i in range(ctx.scale(40, 1000)):
+        yield {"k": "case", "fam": "U", "s": subseed("c16", ctx.seed, "case", ctx.shard, i)}
+    for i in range(ctx.scale(25, 400)):
+        yield {"k": "nested", "fam": "N", "s": subseed("c16", ctx.seed, "nested", ctx.shard, i)}
+    for i in range(ctx.scale(15, 200)):
+        yield {"k": "archive", "fam": "C", "s": subseed("c16", ctx.seed, "archive", ctx.shard, i)}
+    for i in range(ctx.scale(15, 200)):
+        yield {"k": "template", "fam": "T", "s": subseed("c16", ctx.seed, "template", ctx.shard, i)}
     for j in range(len(ENVX_CONFIGS)):
         if ctx.mine(idx):
             yield {"k": "envx", "fam": "C", "config": j, "s": subseed("c16", ctx.seed, "envx", j)}
         idx += 1
-    for i in range(ctx.scale(150, 1200)):
+    for i in range(ctx.scale(150, 4000)):
         yield {"k": "rand", "fam": "AB"[i % 2], "s": subseed("c16", ctx.seed, "rand", ctx.shard, i)}
-    for i in range(ctx.scale(26, 150)):
+    for i in range(ctx.scale(26, 450)):
         mode = SUB_MODE_CYCLE[i % len(SUB_MODE_CYCLE)]
         fam = "A" if mode in ("csv", "line", "line-verbose", "text") else ("B" if mode in ("json", "jsonlines", "list") else "AB"[(i // len(SUB_MODES)) % 2])
         yield {"k": "sub", "fam": fam, "mode": mode, "s": subseed("c16", ctx.seed, "sub", ctx.shard, i)}
@@ -440,6 +454,14 @@ def make_source(rng, kind, index, draw, dirpath):
         with open(path, "wb") as f:
             f.write(compress(data, comp))
         return Source(kind, path, comp + "(neutral name)", records, data, None)
+    if kind == "scheme":
+        # an explicit stream:// scheme wins over a foreign extension
+        path = os.path.join(dirpath, rng.choice(["evidence%d.json", "dump%d.csv", "s%d.avro", "s%d.jsonl"]) % index)
+        records = canonical(draw(rng.choice([1, 2, 3, 4])))
+        data = stream_bytes(records)
+        with open(path, "wb") as f:
+            f.write(data)
+        return Source(kind, "stream://" + path, "plain(stream:// + foreign extension)", records, data, None)
     if kind == "concat":
         # two or three complete record streams appended (cat a.records b.records; a multi-member gzip / bzip2 built
         # the same way; a file a second writer appended to): the records of all parts in order and nothing else
@@ -516,7 +538,7 @@ def make_source(rng, kind, index, draw, dirpath):
 
 def source_entries(ctx, src):
     """Entries a source contributes according to the reference; None when the bytes do not decode to the written records."""
-    if src.kind not in ("good", "trunc", "neutral", "concat") + DMG:
+    if src.kind not in ("good", "trunc", "neutral", "concat", "scheme") + DMG:
         return []
     if getattr(src, "altered", False):
         ctx.event("skipped:damage_alters_bytes_unnoticed_by_the_codec")
@@ -534,7 +556,7 @@ def source_entries(ctx, src):
         if observe.normalise(o) != want:
             return None
         out.append(M.Entry(want, r, {k: getattr(r, k) for k in r.__slots__}))
-    if src.kind in ("good", "neutral", "concat") and len(decoded) != len(src.records):
+    if src.kind in ("good", "neutral", "concat", "scheme") and len(decoded) != len(src.records):
         return None
     return out
 
@@ -563,7 +585,7 @@ def make_options(rng, fam, sources, descs, total, allow_unicode=True):
     allrecs = [r for s in sources for r in s.records]
     if rng.random() < 0.5 and allrecs:
         if fam == "A":
-            opts["selector"] = selgen.gen_expr(rng, depth=rng.choice([1, 2, 2, 3]), support="must")
+            opts["selector"] = selgen.gen_expr(rng, depth=rng.choice([1, 2, 2, 3]), support="must", avoid=tuple(selgen.DIVERGENT) + ("reuse-variable",))
         else:
             opts["selector"] = simple_selector(rng, descs, allrecs)
         argv += ["-s", opts["selector"]]
@@ -643,6 +665,14 @@ def part_paths(out, split):
 def read_records(path):
     from flow.record import RecordReader
 
+    if path.startswith("stream://"):
+        from flow.record import RecordStreamReader
+
+        with open(path[len("stream://"):], "rb") as f:
+            data = f.read()
+        if not data.startswith(b"\x00\x00\x00\x0f\xc4\x0dRECORDSTREAM"):
+            raise ValueError("the destination of an explicit stream:// URI does not hold a record stream")
+        return list(RecordStreamReader(io.BytesIO(data)))
     if os.path.getsize(path) == 0:
         return []
     rd = RecordReader(path)
@@ -1157,6 +1187,316 @@ def _execute_hetero(ctx, case, d):
         ctx.event("hetero_engines_agree")
 
 
+# ---- non-ASCII case boundaries: values and selector literals whose lower() / upper() / casefold() differ --------------------
+CASE_TEXTS = ["Stra\u00dfe", "STRASSE", "strasse", "Hauptstra\u00dfe", "HAUPTSTRASSE", "STRA\u1e9eE", "\u1e9e", "\u00df", "ss", "SS",
+              "\u03c2", "\u03c3", "\u03a3", "\u039f\u0394\u039f\u03a3", "\u03bf\u03b4\u03bf\u03c2", "\u03bf\u03b4\u03bf\u03c3",
+              "\u017f", "s", "S", "mi\u017ft", "MIST", "mist", "\ufb01", "fi", "FI", "\ufb01sh", "FISH", "\u0130", "i", "I", "\u0131", "i\u0307",
+              "\u01c5", "\u01c6", "\u01c4", "\u212a", "K", "k", "\u212aelvin", "kelvin", "\u0149", "\u02bcn", "Hello", "hello", "HELLO", ""]
+
+
+def case_family(rng):
+    from flow.record import RecordDescriptor
+
+    tag = "%x" % rng.randrange(16**6)
+    d1 = RecordDescriptor("uni/a" + tag, [("string", "name"), ("string", "street"), ("varint", "n")])
+    d2 = RecordDescriptor("uni/b" + tag, [("wstring", "name"), ("string", "street"), ("string[]", "tags")])
+
+    def draw(n):
+        out = []
+        for _ in range(n):
+            if rng.random() < 0.6:
+                out.append(d1(name=rng.choice(CASE_TEXTS), street=rng.choice(CASE_TEXTS), n=rng.randrange(5)))
+            else:
+                out.append(d2(name=rng.choice(CASE_TEXTS), street=rng.choice(CASE_TEXTS), tags=[rng.choice(CASE_TEXTS) for _ in range(rng.randrange(3))]))
+        return out
+
+    return draw
+
+
+def case_selector(rng):
+    """Helper-based selectors whose outcome depends on how case is mapped (reference: str.lower() / str.upper())."""
+    lit = rng.choice(CASE_TEXTS)
+    lit2 = rng.choice(CASE_TEXTS)
+    f = rng.choice(["name", "street"])
+    atoms = [
+        "lower(r.%s) == %r" % (f, lit), "lower(r.%s) == %r" % (f, lit.lower()), "upper(r.%s) == %r" % (f, lit.upper()), "upper(r.%s) == %r" % (f, lit),
+        "lower(r.%s) in [%r, %r]" % (f, lit.lower(), lit2), "%r in lower(r.%s)" % (lit.lower(), f), "%r in upper(r.%s)" % (lit.upper(), f),
+        "lower(r.name) == lower(r.street)", "upper(r.name) == upper(r.street)", "lower(r.%s) == lower(%r)" % (f, lit), "upper(r.%s) == upper(%r)" % (f, lit),
+        "field_equals(r, [%r], [%r])" % (f, lit), "field_equals(r, ['name', 'street'], [%r, %r])" % (lit, lit2), "field_equals(r, [%r], [%r], nocase=False)" % (f, lit),
+        "field_contains(r, [%r], [%r])" % (f, lit), "field_contains(r, ['name', 'street'], [%r])" % lit, "field_contains(r, [%r], [%r], nocase=False)" % (f, lit),
+        "field_contains(r, [%r], [%r], word_boundary=True)" % (f, lit),
+        "field_regex(r, [%r], %r)" % (f, "(?i)^" + re.escape(lit) + "$"), "field_regex(r, ['name', 'street'], %r)" % ("(?i)" + re.escape(lit)),
+        "lower(r.%s) != %r" % (f, lit.lower()), "lower(r.%s) < %r" % (f, lit.lower()),
+    ]
+    e = rng.choice(atoms)
+    if rng.random() < 0.3:
+        e = "(%s %s %s)" % (e, rng.choice(["and", "or"]), rng.choice(atoms))
+    if rng.random() < 0.15:
+        e = "not (%s)" % e
+    return e
+
+
+def _execute_case(ctx, case, d):
+    rng = random.Random(case["s"])
+    draw = case_family(rng)
+    sources = [make_source(rng, rng.choice(["good", "good", "concat", "trunc"]), i, draw, d) for i in range(rng.choice([1, 2, 3]))]
+    per = [source_entries(ctx, s) for s in sources]
+    if any(e is None for e in per):
+        ctx.event("skipped:input_outside_class")
+        return
+    entries = [e for es in per for e in es]
+    expr = case_selector(rng)
+    try:
+        kept, touched = M.reference_filter(expr, entries)
+    except M.CaseUndefined:
+        ctx.event("skipped:selector_undefined")
+        return
+    opts = {"selector": expr}
+    argv_opts = ["-s", expr]
+    if rng.random() < 0.35:
+        opts["skip"] = rng.choice([1, 2])
+        argv_opts += ["--skip", str(opts["skip"])]
+    if rng.random() < 0.35:
+        opts["count"] = rng.choice([1, 2, 4])
+        argv_opts += ["-c", str(opts["count"])]
+    if rng.random() < 0.3:
+        opts["fields"] = rng.sample(["name", "street", "n", "tags"], 2)
+        argv_opts += ["-F", ",".join(opts["fields"])]
+    candidates = [M.apply_options(kept, opts)]
+    ctx.event("selector_defined")
+    ctx.event("case_family_cases")
+    if kept and len(kept) < len(entries):
+        ctx.event("case_family_selective")
+    for engine in ("compiled", "interpreted"):
+        o, a = dict(opts), list(argv_opts)
+        if engine == "interpreted":
+            o["no_compile"] = True
+            a += ["-n"]
+        detail = {"argv": None, "sources": [(s.kind, s.comp, len(s.records), s.cut) for s in sources], "options": o, "family": "U"}
+        _run_inproc(ctx, case, rng, d, "B", sources, [s.path for s in sources], a, o, candidates, detail,
+                    force=rng.choice(["stream", "stream", "jsonfile", "csvfile", "line"]))
+
+
+# ---- deep nesting: the deciding value sits two or three levels down -------------------------------------------------------
+def nested_family(rng):
+    from flow.record import GroupedRecord, RecordDescriptor
+
+    tag = "%x" % rng.randrange(16**6)
+    leaf = RecordDescriptor("nest/leaf" + tag, [("string", "ls"), ("varint", "lv")])
+    mid = RecordDescriptor("nest/mid" + tag, [("string", "ms"), ("record", "child"), ("record[]", "kids")])
+    top = RecordDescriptor("nest/top" + tag, [("string", "name"), ("varint", "n"), ("record", "sub"), ("record[]", "subs")])
+    flat = RecordDescriptor("nest/flat" + tag, [("string", "name"), ("varint", "n")])
+    plain = ["alpha", "beta", "gamma", ""]
+
+    def chain(depth, needle_s, needle_v):
+        """a record holding, `depth` levels further down and nowhere else, a leaf with the needle values"""
+        if depth == 0:
+            return leaf(ls=needle_s if needle_s is not None else rng.choice(plain), lv=needle_v if needle_v is not None else rng.choice([0, 1, 2]))
+        inner = chain(depth - 1, needle_s, needle_v)
+        decoys = [leaf(ls=rng.choice(plain), lv=rng.choice([0, 1, 2])) for _ in range(rng.randrange(3))]
+        if rng.random() < 0.5:
+            return mid(ms=rng.choice(plain), child=inner, kids=decoys)
+        kids = decoys + [inner]
+        rng.shuffle(kids)
+        return mid(ms=rng.choice(plain), child=None if rng.random() < 0.5 else leaf(ls="beta", lv=1), kids=kids)
+
+    def draw(n):
+        out = []
+        for _ in range(n):
+            hit = rng.random() < 0.5
+            ns = "needle" if hit and rng.random() < 0.6 else None
+            nv = 4242 if hit and ns is None else None
+            depth = rng.choice([1, 2, 2, 3])      # levels below the top record's field: the leaf sits at nesting depth 1..3
+            inner = chain(depth - 1, ns, nv)
+            k = rng.random()
+            if k < 0.15:
+                out.append(flat(name=rng.choice(plain), n=rng.choice([0, 1, 2])))
+            elif k < 0.55:
+                out.append(top(name=rng.choice(plain), n=rng.choice([0, 1, 2]), sub=inner, subs=[]))
+            elif k < 0.85:
+                subs = [chain(rng.choice([0, 1]), None, None) for _ in range(rng.randrange(3))] + [inner]
+                rng.shuffle(subs)
+                out.append(top(name=rng.choice(plain), n=rng.choice([0, 1, 2]), sub=None, subs=subs))
+            else:
+                member = top(name=rng.choice(plain), n=1, sub=None, subs=[inner])
+                out.append(GroupedRecord("nest/group" + tag, [flat(name="beta", n=0), member]))
+        return out
+
+    return draw
+
+
+NESTED_SELECTORS = ["Type.string == 'needle'", "'needle' in Type.string", "'eedl' in Type.string", "Type.varint == 4242", "Type.varint >= 4242",
+                    "Type.varint > 4000 or Type.string == 'needle'", "not (Type.string == 'needle')", "Type.string == 'needle' and Type.varint < 4242",
+                    "Type.string == 'gamma'", "Type.varint == 2 and 'needle' in Type.string"]
+
+
+def _execute_nested(ctx, case, d):
+    rng = random.Random(case["s"])
+    draw = nested_family(rng)
+    sources = [make_source(rng, rng.choice(["good", "good", "concat", "neutral"]), i, draw, d) for i in range(rng.choice([1, 2, 3]))]
+    per = [source_entries(ctx, s) for s in sources]
+    if any(e is None for e in per):
+        ctx.event("skipped:input_outside_class")
+        return
+    entries = [e for es in per for e in es]
+    expr = rng.choice(NESTED_SELECTORS)
+    try:
+        kept, touched = M.reference_filter(expr, entries)
+    except M.CaseUndefined:
+        ctx.event("skipped:selector_undefined")
+        return
+    opts = {"selector": expr}
+    argv_opts = ["-s", expr]
+    if rng.random() < 0.3:
+        opts["skip"] = rng.choice([1, 2])
+        argv_opts += ["--skip", str(opts["skip"])]
+    if rng.random() < 0.3:
+        opts["count"] = rng.choice([1, 2, 4])
+        argv_opts += ["-c", str(opts["count"])]
+    candidates = [M.apply_options(kept, opts)]
+    ctx.event("selector_defined")
+    ctx.event("nested_cases")
+    if kept and len(kept) < len(entries):
+        ctx.event("nested_selective")
+    for engine in ("compiled", "interpreted"):
+        o, a = dict(opts), list(argv_opts)
+        if engine == "interpreted":
+            o["no_compile"] = True
+            a += ["-n"]
+        detail = {"argv": None, "sources": [(s.kind, s.comp, len(s.records), s.cut) for s in sources], "options": o, "family": "N"}
+        _run_inproc(ctx, case, rng, d, "A", sources, [s.path for s in sources], a, o, candidates, detail, force=rng.choice(["stream", "stream", "stream.gz"]))
+
+
+# ---- -w archive://DIR: every record once, whatever the order of the _generated hours --------------------------------------
+def _execute_archive(ctx, case, d):
+    import datetime as dt
+
+    rng = random.Random(case["s"])
+    draw0, descs = tame_family(rng)
+    hours = rng.choice([[9, 10, 9], [9, 10, 9, 10], [23, 0, 23], [5, 5, 6, 5], [1, 2, 3, 1, 2], [7, 8, 7, 7, 8]])
+    state = {"i": 0}
+
+    def draw(n):
+        out = []
+        for r in draw0(n):
+            h = hours[state["i"] % len(hours)]
+            if rng.random() < 0.6:
+                state["i"] += 1
+            r._generated = dt.datetime(2024, 3, 1 + (h == 0), h, rng.randrange(60), rng.randrange(60), tzinfo=dt.timezone.utc)
+            out.append(r)
+        state["i"] += 1
+        return out
+
+    sources = [make_source(rng, "good", i, draw, d) for i in range(rng.choice([2, 3, 4]))]
+    per = [source_entries(ctx, s) for s in sources]
+    if any(e is None for e in per):
+        ctx.event("skipped:input_outside_class")
+        return
+    entries = [e for es in per for e in es]
+    opts, argv_opts = {}, []
+    if rng.random() < 0.4:
+        opts["selector"] = simple_selector(rng, descs, [e.rec for e in entries])
+        argv_opts += ["-s", opts["selector"]] + (["-n"] if rng.random() < 0.5 else [])
+        try:
+            entries, touched = M.reference_filter(opts["selector"], entries)
+        except M.CaseUndefined:
+            ctx.event("skipped:selector_undefined")
+            return
+        if touched and M.risky_with_missing(opts["selector"]):
+            ctx.event("skipped:missing_field_with_c08_operator")
+            return
+    if rng.random() < 0.3:
+        opts["skip"] = 1
+        argv_opts += ["--skip", "1"]
+    _, final = M.apply_options(entries, opts)
+    adir = os.path.join(d, "archive")
+    argv = [s.path for s in sources] + argv_opts + ["-w", "archive://" + adir]
+    detail = {"argv": argv, "sources": [(s.kind, s.comp, len(s.records), s.cut) for s in sources], "options": opts, "family": "C",
+              "hours": [observe.oval(e.vals["_generated"])[4] for e in final]}
+    ctx.ev()
+    rc, so, se, exc = run_inprocess(argv)
+    what = "in-process -w archive://"
+    if exc is not None or rc not in (None, 0):
+        ctx.violation(None, "%s: rdump failed although the reference pipeline is defined" % what, detail=dict(detail, rc=rc, exception=repr(exc)[:400], stderr=se[-600:]))
+        return
+    got = []
+    files = sorted(glob.glob(os.path.join(glob.escape(adir), "**", "*"), recursive=True))
+    files = [f for f in files if os.path.isfile(f)]
+    try:
+        for f in files:
+            got += read_records(f)
+    except Exception as e:  # noqa: BLE001
+        ctx.violation(None, "%s: a file of the archive cannot be read back" % what, detail=dict(detail, exception=repr(e)[:300], files=[os.path.relpath(f, adir) for f in files]))
+        return
+    exp = sorted(json.dumps(observe.normalise(e.obs), sort_keys=True) for e in final)
+    obs = sorted(json.dumps(observe.normalise(observe.obs(r)), sort_keys=True) for r in got)
+    ctx.event("archive_cases")
+    ctx.event("archive_files", len(files))
+    if len(set(detail["hours"])) > 1:
+        ctx.event("archive_cases_with_several_hours")
+    if obs != exp:
+        ctx.violation(None, "%s: the union of the archive's files is not the filtered input (each record once)" % what,
+                      detail=dict(detail, got=len(obs), expected=len(exp), files=[os.path.relpath(f, adir) for f in files]))
+    _account(ctx, case, opts, final, obs == exp, "archive", detail)
+
+
+# ---- -f / format_spec templates with values that contain backslash escapes --------------------------------------------------
+BACKSLASH_TEXTS = ["C:\\Users\\rick\\temp\\notes.txt", "\\\\server\\share\\new\\readme.txt", "^\\d+\\t\\w+\\r?\\n$", "a\\nb", "tab\\there", "plain", "",
+                   "real\ttab", "real\nnewline", "C:\\temp\\report.rtf"]
+TEMPLATES = ["{s} {v}", "{s}\\t{tag}", "{tag}|{s}|{v}\\n--", "x={s!r} y={tag}", "{s}", "{nope} {s}\\t{v:>5}", "{_source}:{s}"]
+
+
+def _execute_format(ctx, case, d):
+    from flow.record import RecordDescriptor
+
+    rng = random.Random(case["s"])
+    desc = RecordDescriptor("fmt/t%x" % rng.randrange(16**6), [("string", "s"), ("string", "tag"), ("varint", "v")])
+
+    def draw(n):
+        return [desc(s=rng.choice(BACKSLASH_TEXTS), tag=rng.choice(BACKSLASH_TEXTS + ["keep"]), v=rng.choice([0, 7, 12345]), _source=rng.choice([None, "src"])) for _ in range(n)]
+
+    sources = [make_source(rng, "good", i, draw, d) for i in range(rng.choice([1, 2]))]
+    per = [source_entries(ctx, s) for s in sources]
+    if any(e is None for e in per):
+        ctx.event("skipped:input_outside_class")
+        return
+    entries = [e for es in per for e in es]
+    tpl = rng.choice(TEMPLATES)
+    opts = {}
+    argv_opts = []
+    if rng.random() < 0.3:
+        opts["count"] = rng.choice([1, 2])
+        argv_opts += ["-c", str(opts["count"])]
+    _, final = M.apply_options(entries, opts)
+    # the writer replaces the two-character sequences backslash-r / -n / -t of the TEMPLATE by the control characters
+    real = tpl.replace("\\r", "\r").replace("\\n", "\n").replace("\\t", "\t")
+    try:
+        exp = "".join(tm.apply_template(real, e.vals) + "\n" for e in final)
+    except tm.Undefined:
+        ctx.event("skipped:template_undefined")
+        return
+    out = os.path.join(d, "out.txt")
+    from urllib.parse import quote
+
+    for how, argv in (("-f", ["-f", tpl]), ("text://?format_spec=", ["-w", "text://%s?format_spec=%s" % (out, quote(tpl))])):
+        argv = [s.path for s in sources] + argv_opts + argv
+        detail = {"argv": argv, "sources": [(s.kind, s.comp, len(s.records), s.cut) for s in sources], "options": dict(opts, template=tpl), "family": "fmt-template"}
+        ctx.ev()
+        rc, so, se, exc = run_inprocess(argv)
+        what = "in-process text output with %s" % how
+        if exc is not None or rc not in (None, 0):
+            ctx.violation(None, "%s: rdump failed although the reference pipeline is defined" % what, detail=dict(detail, rc=rc, exception=repr(exc)[:400], stderr=se[-600:]))
+            continue
+        text = so if how == "-f" else read_text(out)
+        ctx.event("template_cases")
+        ok = text == exp
+        if not ok:
+            n = next((i for i, (a, b) in enumerate(zip(text, exp)) if a != b), min(len(text), len(exp)))
+            ctx.violation(None, "%s: formatted text differs from the template applied to the reference records" % what,
+                          detail=dict(detail, at=n, got=text[max(0, n - 60):n + 80], expected=exp[max(0, n - 60):n + 80]))
+        _account(ctx, case, opts, final, ok, "template", detail)
+
+
 # ---- environment children --------------------------------------------------------------------------------------------------
 ENVX_CONFIGS = [
     {"FLOW_RECORD_IGNORE": "_generated"},
@@ -1219,6 +1559,14 @@ def _execute(ctx, case, d):
         return _execute_hetero(ctx, case, d)
     if case["k"] == "envx":
         return _execute_envx(ctx, case, d)
+    if case["k"] == "case":
+        return _execute_case(ctx, case, d)
+    if case["k"] == "nested":
+        return _execute_nested(ctx, case, d)
+    if case["k"] == "archive":
+        return _execute_archive(ctx, case, d)
+    if case["k"] == "template":
+        return _execute_format(ctx, case, d)
     rng = random.Random(case["s"])
     fam = case["fam"]
     kind = case["k"]
@@ -1232,8 +1580,8 @@ def _execute(ctx, case, d):
     if kind == "mtx":
         pattern = ["good"] * rng.choice([1, 2])
     else:
-        pool = ["good"] * 6 + ["neutral", "neutral", "concat", "concat", "concat"] + ["missing", "garbage", "empty", "trunc", "trunc"] + list(DMG)
-        pattern = case.get("pattern") or [rng.choice(pool) for _ in range(rng.randint(1, 5))]
+        pool = ["good"] * 6 + ["neutral", "neutral", "concat", "concat", "concat", "scheme", "scheme"] + ["missing", "garbage", "empty", "trunc", "trunc"] + list(DMG)
+        pattern = case.get("pattern") or [rng.choice(pool) for _ in range(rng.randint(1, 5) if (ctx.quick or rng.random() < 0.6) else rng.randint(6, 9))]
         while sum(1 for k in pattern if k in DMG_COMP) > 2:
             pattern[[i for i, k in enumerate(pattern) if k in DMG_COMP][-1]] = "good"
     use_stdin = kind == "sub" and rng.random() < 0.25
@@ -1308,7 +1656,7 @@ def _cells(ctx, case, opts, outkind, sources):
 
 
 def _run_inproc(ctx, case, rng, d, fam, sources, argv_src, argv_opts, opts, candidates, detail, force=None):
-    choices = ["stream", "stream", "stream.gz", "csvfile", "line", "text"] + (["jsonfile", "jsonfile"] if fam == "B" else [])
+    choices = ["stream", "stream", "stream.gz", "stream.foreign", "csvfile", "line", "text"] + (["jsonfile", "jsonfile"] if fam == "B" else [])
     outkind = force or ("stream" if case["k"] == "place" else rng.choice(choices))
     split = None
     argv_split = []
@@ -1316,9 +1664,11 @@ def _run_inproc(ctx, case, rng, d, fam, sources, argv_src, argv_opts, opts, cand
         split = rng.choice([1, 2, 3, 5])
         suffix = rng.choice([1, 2, 3])
         argv_split = ["--split", str(split), "--suffix-length", str(suffix)]
-    fname = {"stream": "out.records", "stream.gz": "out.records.gz", "jsonfile": "out.json", "csvfile": "out.csv", "line": "out.txt", "text": "out.txt"}[outkind]
+    fname = {"stream": "out.records", "stream.gz": "out.records.gz", "stream.foreign": rng.choice(["out.csv", "out.json", "out.avro"]) if outkind == "stream.foreign" else "", "jsonfile": "out.json", "csvfile": "out.csv", "line": "out.txt", "text": "out.txt"}[outkind]
     out = os.path.join(d, fname)
-    if outkind in ("stream", "stream.gz"):
+    if outkind == "stream.foreign":
+        uri = "stream://" + out
+    elif outkind in ("stream", "stream.gz"):
         uri = out if (split or rng.random() < 0.7) else "stream://" + out
     elif outkind == "jsonfile":
         uri = out if rng.random() < 0.5 else "jsonfile://" + out
@@ -1337,11 +1687,11 @@ def _run_inproc(ctx, case, rng, d, fam, sources, argv_src, argv_opts, opts, cand
     paths = part_paths(out, split)
     if split:
         ctx.event("split_parts", len(paths))
-    if outkind in ("stream", "stream.gz", "jsonfile"):
+    if outkind in ("stream", "stream.gz", "stream.foreign", "jsonfile"):
         got = []
         try:
             for p in paths:
-                got += read_records(p)
+                got += read_records(("stream://" + p) if outkind == "stream.foreign" else p)
         except Exception as e:  # noqa: BLE001
             ctx.violation(None, "%s: rdump's output cannot be read back" % what, detail=dict(detail, exception=repr(e)[:300], files=[os.path.basename(p) for p in paths]))
             return None
@@ -1466,6 +1816,8 @@ def finish(ctx):
     ctx.require(ev.get("cases_compared", 0) > 0, "no case reached the comparison")
     ctx.require(ev.get("cases_with_output", 0) > 0, "no case had a non-empty expected output")
     ctx.require(sum(v for k, v in ev.items() if k.startswith("damaged_source:")) > 0, "no source damaged mid-stream was generated")
+    ctx.require(ev.get("nested_selective", 0) > 0, "no deep-nesting typed-matcher selector separated the records of its input")
+    ctx.require(ev.get("case_family_selective", 0) > 0, "no non-ASCII case-boundary selector separated the records of its input")
     ctx.require(ev.get("fmt_cases", 0) > 0 and ev.get("fmt_source_records", 0) > 0, "no case with non-stream input forms was compared")
     ctx.require(ev.get("hetero_engines_agree", 0) > 0 and ev.get("hetero_cases_with_aborted_source", 0) > 0,
                 "no heterogeneous-field case (with a source ended by a raising selector) was compared for both engines")
